@@ -228,7 +228,101 @@ class RemoveTriggerBase(Contract):
                  "_ThreePhaseEvent.removeTrigger_BASE")]
 
 
-CONTRACTS = [FireEvent, AddTrigger, RemoveTriggerBase]
+def meddling_trigger(I, trig, *args, **kw):
+    """a during-/after-trigger that, while the event fires, unregisters a trigger of the event (itself, one that has
+    already run, one still to come) or registers another one -- as ReactorBase._stopThreadPool does with itself"""
+    c = ctx()
+    g = c.ghost
+    name = trig._name
+    c.emit("run", trig, args, kw)
+    if name == g["who"] and not g["done"]:
+        g["done"] = True
+        evt = g["$objs"]["e"]
+        what = g["what"]
+        if what.startswith("remove:"):
+            target = what.split(":")[1]
+            phase = {"d": "during", "a": "after"}[target[0]]
+            handle = (phase, g["trig"][target], (), {})
+            try:
+                I.call(I.getattr(evt, "removeTrigger"), [handle])
+                g["removed"] = target
+            except ValueError:
+                g["refused"] = target
+        elif what == "add:during":
+            I.call(I.getattr(evt, "addTrigger"), ["during", g["trig"]["extra"]])
+        elif what == "add:after":
+            I.call(I.getattr(evt, "addTrigger"), ["after", g["trig"]["extra"]])
+    return None
+
+
+class ContinueFiringMeddling(Contract):
+    """_continueFiring while triggers change the registrations: every trigger still registered when its turn comes runs
+    exactly once, in phase and registration order; unregistering a trigger that has already run (or oneself) disturbs
+    nobody (it is refused: the registration is gone); a trigger unregistered before its turn does not run; one registered
+    for a phase that has not finished runs in that phase, after the others (seeded change C12-3)."""
+    prop = "C12"
+    module = M
+    function = "_ThreePhaseEvent._continueFiring"
+    also = ["_ThreePhaseEvent.removeTrigger", "_ThreePhaseEvent.removeTrigger_BASE", "_ThreePhaseEvent.addTrigger"]
+    differential = False
+    calls = {"d1.__call__": meddling_trigger, "d2.__call__": meddling_trigger, "d3.__call__": meddling_trigger,
+             "a1.__call__": meddling_trigger, "a2.__call__": meddling_trigger, "extra.__call__": meddling_trigger,
+             "_FastFailCtxMgr.__exit__": lambda I, *a: (ctx().emit("logged", None, ()), True)[1],
+             "_ThreePhaseEventTriggerHandle": "native"}
+    inputs = dict(who=OneOf("d1", "d2", "a1"),
+                  what=OneOf("none", "remove:d1", "remove:d2", "remove:d3", "remove:a1", "remove:a2", "add:during", "add:after"))
+    trusted = ["three during- and two after-triggers, one of which meddles once (stated bound)",
+               "_systemEventHandler swallows and logs whatever a trigger raises"]
+
+    def setup(self, i):
+        names = ["d1", "d2", "d3", "a1", "a2"]
+        trig = {n: self.opaque(n) for n in names + ["extra"]}
+        evt = self.make(base._ThreePhaseEvent, state="BEFORE", finishedBefore=[], before=[],
+                        during=[(trig[n], (), {}) for n in names if n[0] == "d"],
+                        after=[(trig[n], (), {}) for n in names if n[0] == "a"])
+        return dict(self=evt, args=[None], objs=dict(e=evt),
+                    ghost=dict(who=i.who, what=i.what, trig=trig, done=False, removed=None, refused=None, names=names))
+
+    def bounded_inputs(self, tier):
+        return iter(())  # RemovalWhileFiring (bounded) does this on the real reactor event
+
+    raises = ()
+
+    def _remaining(S):
+        names, who, what = list(S.ghost["names"]), S.i.who, S.i.what
+        order = ["d1", "d2", "d3", "a1", "a2"]
+        want = list(order)
+        if what.startswith("remove:"):
+            target = what.split(":")[1]
+            if order.index(target) > order.index(who):
+                want.remove(target)        # unregistered before its turn: must not run
+                ok = S.ghost["removed"] == target
+            else:
+                ok = S.ghost["refused"] == target   # already run (or running): the registration is gone, ValueError
+        elif what == "add:during":
+            ok = True
+            if who[0] == "d":
+                want.insert(3, "extra")     # the during phase is still being served
+            # registered for a phase that is over: stays registered for the next firing
+        elif what == "add:after":
+            ok = True
+            want.append("extra")
+        else:
+            ok = True
+        runs = [e.target._name for e in ev(S, "run")]
+        left_during = [t[0]._name for t in S.new.e.during]
+        left_after = [t[0]._name for t in S.new.e.after]
+        want_left_during = ["extra"] if (what == "add:during" and who[0] == "a") else []
+        return ok and runs == want and left_during == want_left_during and left_after == [] and S.new.e.state == "BASE"
+
+    ensures = dict(every_remaining_trigger_once_in_order_whatever_the_triggers_do_to_the_registrations=_remaining)
+    canaries = [("            while phase:\n                callable, args, kwargs = phase.pop(0)\n",
+                 "            for callable, args, kwargs in phase:\n",
+                 "every_remaining_trigger_once_in_order_whatever_the_triggers_do_to_the_registrations")]
+
+
+
+CONTRACTS = [FireEvent, AddTrigger, RemoveTriggerBase, ContinueFiringMeddling]
 BOUNDED = bounded("C12")
 _SCOPE = ("histories of add / remove / fire / callback / errback played through the real _ThreePhaseEvent and through "
           "ReactorBase.addSystemEventTrigger / removeSystemEventTrigger / fireSystemEvent, compared (order and arguments of "
@@ -250,7 +344,9 @@ MANIFEST = dict(
          "before-trigger's Deferred is pending -- and they do run once all have fired, failed or not -- then during- and "
          "after-triggers in order; a raising trigger stops nothing; the lists end empty and the state BASE.  addTrigger "
          "appends exactly one registration to the named phase; removeTrigger in the base state removes exactly the named "
-         "registration (ValueError if absent).  Longer histories, removal while firing and the reactor's wrappers are "
+         "registration (ValueError if absent).  _continueFiring is also proved with three during- and two after-triggers "
+         "one of which unregisters itself, an earlier or a later trigger, or registers a new one while the event fires: "
+         "every trigger still registered when its turn comes runs exactly once, in order.  Longer histories and the reactor's wrappers are "
          "exercised in the bounded tier only: " + _SCOPE + ".",
     note="Trusted: pyvc, SMT solvers, the failure handler's __exit__, the bound on the number of triggers.  Everything else: bounded, never counted as proved.",
     technique="contract-based deductive verification (complete symbolic case analysis of trigger behaviours and firing orders on the real code, Deferred machinery executed from source) + bounded exhaustive histories",
